@@ -160,6 +160,36 @@ def run_shard(spec, acc):
         nb = d.length if d.length is not None else (d.total_bits() + 7) // 8
         fields = [f for f in d.fields if f.match is None]
         base = gen.base_raws(d, rng, dbx)
+        # the shared encoder is first asked to send hand-built nonsense of this very definition (an unknown lookup name, an
+        # infinite number, a time given as text, a field missing): whatever it answers, the real messages that follow are
+        # encoded as if nothing had happened
+        try:
+            m_bad = dec.decode_basic_string(wire.plain_line(3, d.pgn, 5, 255, dbx.pack(d, base).to_bytes(nb, "little")), already_combined=True)
+        except Exception:  # noqa: BLE001
+            m_bad = None
+        if m_bad is not None and m_bad.id == d.id:
+            import copy as _copy
+            for k_, fd in enumerate(d.fields):
+                lf = next((x for x in m_bad.fields if x.id == fd.id), None)
+                if lf is None or fd.match is not None:
+                    continue
+                mb = _copy.deepcopy(m_bad)
+                lb = next(x for x in mb.fields if x.id == fd.id)
+                if fd.ftype == "LOOKUP":
+                    lb.value, lb.raw_value = "no such name in the table", None
+                elif fd.ftype in ("TIME", "DURATION", "DATE"):
+                    lb.value, lb.raw_value = "12:34:56", None
+                elif fd.ftype in ("NUMBER", "FLOAT"):
+                    lb.value = lb.raw_value = float("inf")
+                else:
+                    mb.fields = [x for x in mb.fields if x.id != fd.id]
+                try:
+                    enc.encode_actisense(mb)
+                except Exception:  # noqa: BLE001 - refusing is fine
+                    pass
+                acc.count("nonsense_messages_offered_to_the_shared_encoder")
+                if k_ >= 5:
+                    break
         roundtrip(dbx, dec, enc, d, dbx.pack(d, base), nb, acc, "base")
         for f in fields:
             for name, u, inr in gen.field_classes(f, rng, 3 if quick else 20, dbx):
